@@ -202,7 +202,7 @@ CHECKS.update({
         "quick": T(40960, 60), "thorough": T(600000, 600),
         "rule": "families of 256 seeds = (initial content from 9 fixed + generated files incl. absent and files of 230-600 entries that exceed one stdio buffer, enable or disable): slot 0 = census of the simulated system calls of the fault-free run; slots 1..n+1 = the process is killed immediately before simulated call k (k = n+1: after the last), which covers 'before and after every call'; further slots = each write-type call (open for writing, write, close, fsync, rename) failing with ENOSPC, EIO, EDQUOT or writing short; then the same errors persisting from that call on (a full disk stays full); then one ENOSPC followed by a kill before each later call (error paths are killed too); afterwards the preload file must equal the old or the model's complete new content. "
                 "non-trivial = crash or fault fired (or census); distinct = (operation, content hash, mode, crash index, fault)",
-        "probes": ["census", "crash_fired", "enospc", "write_error", "short_write", "sticky_fault", "fault_then_crash", "stale_temp_file"],
+        "probes": ["census", "crash_fired", "enospc", "write_error", "short_write", "sticky_fault", "fault_then_crash", "stale_temp_file", "read_fault"],
     },
 })
 MANIFEST_TEXT.update({
